@@ -1,20 +1,62 @@
+//! vf_hydro_sim1 — engine F (part 1): C36, C37, C38 over the repo's simulator.
+mod c36;
+mod c37;
+mod c38;
+mod corpus;
 mod driver;
 mod hooks;
-use hydro_lang::prelude::*;
+mod jobs;
+mod simrun;
+
+use vf_explore::{Report, cli, quiet_panics};
+
 fn main() {
-    if std::env::var_os("CARGO_MANIFEST_DIR").is_none() {
-        unsafe { std::env::set_var("CARGO_MANIFEST_DIR", env!("CARGO_MANIFEST_DIR")) };
+    // hydro_lang's staging / trybuild code needs the manifest dir of the crate holding the
+    // programs; the check driver starts the binary directly (no `cargo run`).
+    unsafe {
+        if std::env::var_os("CARGO_MANIFEST_DIR").is_none() {
+            std::env::set_var("CARGO_MANIFEST_DIR", env!("CARGO_MANIFEST_DIR"));
+        }
+        std::env::set_var("NO_COLOR", "1");
+        std::env::remove_var("RUSTFLAGS"); // would switch the simulator's build strategy
+        std::env::remove_var("BOLERO_FUZZER");
+        std::env::remove_var("HYDRO_SIM_LOG");
     }
-    let _ = hooks::ALL_KINDS;
-    let t0 = std::time::Instant::now();
-    let mut flow = FlowBuilder::new();
-    let node = flow.process::<()>();
-    let (tx, rx) = vf_hydro_sim1::progs::ordered_batch(&node);
-    let mut outs = std::collections::BTreeSet::new();
-    let n = flow.sim().exhaustive(async || {
-        tx.send(1); tx.send(2); tx.send(3);
-        let all: Vec<Vec<u32>> = rx.collect().await;
-        outs.insert(all);
-    });
-    println!("{n} instances, outs={outs:?}, {:?}", t0.elapsed());
+    let _ = std::env::set_current_dir(env!("CARGO_MANIFEST_DIR"));
+    quiet_panics();
+    if let Ok(spec) = std::env::var("VF_SIM1_JOB") {
+        jobs::job_main(&spec);
+    }
+    if let Ok(spec) = std::env::var("VF_SIM1_PROBE") {
+        // development aid: print every execution of one corpus program (own DFS)
+        let (name, n) = spec.split_once(':').expect("VF_SIM1_PROBE=program:n");
+        let e = corpus::build(name, n.parse().unwrap());
+        let st = vf_explore::explore(None, 100_000, |ch| {
+            let run = e.sim.run_driver(ch, false, true);
+            println!("{:?} {:?} decisions={:?}\n    obs={:?}", ch.choices(), run.verdict, run.decisions, run.obs);
+        });
+        println!("{} executions (capped: {})", st.executions, st.capped);
+        std::process::exit(0);
+    }
+    let cli = cli();
+    if let Some(path) = &cli.replay {
+        let txt = std::fs::read_to_string(path).unwrap_or_else(|e| driver::machinery(&format!("cannot read replay file {path}: {e}")));
+        let v: vf_explore::Value = vf_explore::serde_json::from_str(&txt).unwrap_or_else(|e| driver::machinery(&format!("bad replay file: {e}")));
+        let case = &v["case"];
+        let violates = match cli.property.as_str() {
+            "C36" => c36::replay(case),
+            "C37" => c37::replay(case),
+            "C38" => c38::replay(case),
+            p => driver::machinery(&format!("property {p} is not served by vf_hydro_sim1")),
+        };
+        std::process::exit(if violates { 1 } else { 0 });
+    }
+    let mut rep = Report::new(&cli.property, &cli.tier, "vf_hydro_sim1");
+    match cli.property.as_str() {
+        "C36" => c36::run(&mut rep),
+        "C37" => c37::run(&mut rep),
+        "C38" => c38::run(&mut rep),
+        p => driver::machinery(&format!("property {p} is not served by vf_hydro_sim1")),
+    }
+    rep.finish();
 }
